@@ -57,6 +57,19 @@ class CounterModel(object):
                 'stepmon_midrun': self.stepmon_midrun}
 
     def before_op(self, h, op):
+        # Finalize() called by mystic itself while a run goes on (Step finalizes when Terminated() is true, and then asks
+        # again for the message: for Powell the record Finalize appends can change the answer, and the run carries on) is
+        # the same 'finalize then continue' history as an explicit Finalize()/Set* between steps
+        if op['op'] in ('solve', 'step') and h.solvers and not getattr(h.solver, '_c04_fin_wrapped', False):
+            solver_ = h.solver; fin = solver_.Finalize; model_ = self
+            def Finalize():
+                r_ = fin()
+                if h.started: model_.finalized = True
+                return r_
+            try:
+                solver_.Finalize = Finalize; solver_._c04_fin_wrapped = True
+            except Exception:
+                pass
         # a collapse applied inside Solve() installs a constraint: from there on a different objective is minimised (a new
         # epoch for 'best never worsens', exactly like an explicit SetConstraints in mid-run)
         if op['op'] == 'solve' and h.solvers and not getattr(h.solver, '_c04_wrapped', False):
@@ -179,6 +192,7 @@ class CounterModel(object):
         self.stop_by_precheck = not executed
 
     def on_step(self, h, s):
+        if self.finalized: self.continued_after_finalize = True
         # the callback receives the current best
         if not feq(s['_cb_x'], s['bestSolution']):
             h.violate(self.P, 'callback_arg_not_best', detail='callback got %r, best is %r'
